@@ -96,6 +96,7 @@ def ties(ctx):
     q = ctx.quick
     out = []
     out.append(common.run_tie('ctl-honour-dtx', [h, 'honourdtx'], env=_ENV))     # corpus of past failures first
+    out.append(common.run_tie('ctl-forceauto', [h, 'forceauto'], env=_ENV))
     out.append(common.run_tie('ctl-funcs', [h, 'funcs'], env=_ENV))
     out.append(common.run_tie('ctl-create', [h, 'create', '0' if q else '1'], env=_ENV))
     out.append(common.run_tie('ctl-grid', [h, 'grid', '0' if q else '1'], env=_ENV))
@@ -220,13 +221,24 @@ def _history_violations(inp, outp):
                 bw_stable = True
             if op[0] == 'E':
                 f = op[1:].split(':')
-                if len(f) == 7:
+                if len(f) == 9:
                     why = _packet_violation(int(hdr[2]), nch, pc, int(f[0]), int(f[2]), int(f[4]), int(f[5]), int(f[6]),
                                             since_mono, bw_stable)
                     if why:
                         res.append(('ctl-honour-history', prefix, 'every packet honours the settings in force', 'toc=%s' % f[4],
                                     'a packet produced by opus_encode contradicts the settings the encoder reported before '
                                     'the call: ' + why))
+                    # an encode call must not change a user setting (getters of the settings + the stored
+                    # user_bitrate / user_bandwidth / user_forced_mode / lfe); voice_ratio is an analysis slot
+                    nc = snap.split(',')
+                    setcols = [0, 2, 3, 5, 6, 7, 8, 9, 11, 12, 16, 17, 18, 19, H, H + 1, H + 2, H + 3]
+                    chg = [c for c in setcols if c < len(nc) and nc[c] != pc[c]]
+                    if chg:
+                        names = (ENC_GET + ['user_bitrate_bps', 'user_bandwidth', 'user_forced_mode', 'lfe'])
+                        c = chg[0]
+                        res.append(('ctl-encode-settings', prefix, '%s stays %s' % (names[c] if c < len(names) else c, pc[c]),
+                                    nc[c], 'an opus_encode call changed a user setting (request/field %s: %s -> %s); only a '
+                                    'ctl may change settings' % (names[c] if c < len(names) else c, pc[c], nc[c])))
                     if pc[2] != '1':
                         since_mono = 0
                     elif int(f[2]) > 0:          # only calls that produced a packet count towards 'within three packets'
@@ -321,9 +333,9 @@ def _create_violation(inp, outp):
     return None
 
 
-def _run_lines(cmd):
+def _run_lines(cmd, stdin=None):
     e = dict(os.environ); e.update(_ENV)
-    p = subprocess.run(cmd, stdout=subprocess.PIPE, stderr=subprocess.DEVNULL, text=True, env=e)
+    p = subprocess.run(cmd, stdout=subprocess.PIPE, stderr=subprocess.DEVNULL, text=True, env=e, input=stdin)
     cur = None
     for line in p.stdout.split('\n'):
         if line.startswith('I '):
@@ -331,6 +343,63 @@ def _run_lines(cmd):
         elif line.startswith('O ') and cur is not None:
             yield cur, line[2:]
             cur = None
+
+
+def _replay_history(h, line):
+    for inp, outp in _run_lines([h, 'stdin'], stdin=line + '\n'):
+        return inp, outp
+    return None, None
+
+
+def _shrink(ctx, v):
+    """Delta debugging on the op list of a history witness: re-run candidate histories on the implementation (harness mode
+    `stdin`; every E op carries its signal kind and seed) and keep a candidate when the same predicate still fails.
+    Returns the witness tuple with a minimal `input`."""
+    suite, inp, exp, obs, why = v
+    tok = inp.split()
+    if len(tok) < 3 or tok[1] not in ('enc', 'msenc', 'mssur', 'projenc'):
+        return v
+    nhdr = {'enc': 5, 'msenc': 8, 'mssur': 6, 'projenc': 5}[tok[1]]
+    hdr, ops = tok[:nhdr], [t for t in tok[nhdr:] if t != 'g4029']
+    if ops and ops[-1][0] == 'g' and suite == 'ctl-readback':
+        ops = ops[:-1]                      # the getter the witness appends for readability
+    h = _harness(ctx)
+    cls = why.split(':')[0][:40]
+    budget = [400]
+
+    def fails(cand):
+        if budget[0] <= 0:
+            return None
+        budget[0] -= 1
+        # strip recorded results from E ops: E<fsz>:<bytes>:<sig>:<seed>
+        line = ' '.join(hdr + [(lambda f: 'E%s:%s:0:0:%s:%s' % (f[0], f[1], f[-2], f[-1]))(t[1:].split(':')) if t[0] == 'E' and
+                               t.count(':') >= 3 else t for t in cand])
+        i2, o2 = _replay_history(h, line)
+        if i2 is None:
+            return None
+        for w in _history_violations(i2, o2):
+            if w[0] == suite and w[4].split(':')[0][:40] == cls:
+                return w
+        return None
+
+    best = fails(ops)
+    if best is None:
+        return v                            # does not reproduce in isolation: keep the original history
+    n = 2
+    while len(ops) >= 2 and budget[0] > 0:
+        chunk = max(1, len(ops) // n)
+        reduced = False
+        for i in range(0, len(ops), chunk):
+            cand = ops[:i] + ops[i + chunk:]
+            w = fails(cand) if cand else None
+            if w is not None:
+                ops, best, n, reduced = cand, w, max(n - 1, 2), True
+                break
+        if not reduced:
+            if chunk == 1:
+                break
+            n = min(len(ops), n * 2)
+    return (best[0], best[1], best[2], best[3], best[4] + ' [history shrunk to %d ops]' % len(ops))
 
 
 def classify(ctx, tie, mm):
@@ -342,6 +411,7 @@ def classify(ctx, tie, mm):
                     'why': 'a packet produced by opus_encode contradicts the settings in force: ' + model}
         return None
     for v in _history_violations(inp, impl):
+        v = _shrink(ctx, v)
         return {'suite': v[0], 'input': v[1], 'expected': v[2], 'observed': v[3], 'why': v[4]}
     v = _create_violation(inp, impl)
     if v:
@@ -372,7 +442,7 @@ def search(ctx):
     wit = []
     samples = []
     seen = set()
-    runs = [[h, 'grid', '0' if ctx.quick else '1'], [h, 'rand', str(ctx.seed + 1000), '2000' if ctx.quick else '20000'],
+    runs = [[h, 'forceauto'], [h, 'grid', '0' if ctx.quick else '1'], [h, 'rand', str(ctx.seed + 1000), '2000' if ctx.quick else '20000'],
             [h, 'reapp', str(ctx.seed + 1000), '1500' if ctx.quick else '20000'],
             [h, 'chain', str(ctx.seed + 1000), '1000' if ctx.quick else '10000'],
             [h, 'create', '0' if ctx.quick else '1']]
@@ -393,6 +463,8 @@ def search(ctx):
                 if key in seen:
                     continue
                 seen.add(key)
+                if len(wit) < 4:
+                    v = _shrink(ctx, v)
                 wit.append({'suite': v[0], 'input': v[1], 'expected': v[2], 'observed': v[3], 'why': v[4]})
             if len(samples) < 3 and len(inp) < 200:
                 samples.append('%s -> %s' % (inp, outp[:120]))
